@@ -285,6 +285,7 @@ func (s *Syncer) syncLoop(ctx context.Context, env *lmdb.Env, r *receiver.Receiv
 
 		// Check if we need to do a periodic snapshot
 		snapshotOverdue := false
+		s.lastSnapshotTime = verifhook.Now("sync.lastSnapshotTime", s.lastSnapshotTime)
 		if dt := time.Since(s.lastSnapshotTime); forceSnapshotEnabled && dt > forceSnapshotInterval {
 			snapshotOverdue = true
 			if s.hooks.SnapshotOverdue != nil {
